@@ -50,9 +50,15 @@ def explore(ctx):
         [{"k": "blind", "id": 0}, {"k": "issue", "id": 1}, {"k": "revoke", "ids": [0]}, {"k": "blind", "id": 0}, {"k": "refresh", "id": 0}],
         [{"k": "blind", "id": 0}, {"k": "blind", "id": 1}, {"k": "revoke", "ids": [1]}, {"k": "issue", "id": 1}, {"k": "refresh", "id": 0}],
     ]
+    # growing, shrinking and mixed batch sizes between a holder's first handle and now (multi-batch catch-up)
+    fixed += [
+        [{"k": "issue", "id": i} for i in range(4)] + [{"k": "revoke", "ids": [1]}, {"k": "revoke", "ids": [2, 3]}],
+        [{"k": "issue", "id": i} for i in range(7)] + [{"k": "revoke", "ids": [1]}, {"k": "revoke", "ids": [2, 3, 4]}, {"k": "revoke", "ids": [5, 6]}],
+        [{"k": "issue", "id": i} for i in range(7)] + [{"k": "revoke", "ids": [1, 2, 3]}, {"k": "revoke", "ids": [4, 5]}, {"k": "revoke", "ids": [6]}],
+    ]
     for j, f in enumerate(fixed):
         for suite in ("bbs", "ps"):
-            cases.insert(0, {"op": "f_revoc", "suite": suite, "holders": 4, "ops": f})
+            cases.insert(0, {"op": "f_revoc", "suite": suite, "holders": 7, "ops": f})
     if ctx.get("replay"):
         rp = json.load(open(ctx["replay"]))
         if rp.get("case", {}).get("op") == "f_revoc":
